@@ -1320,7 +1320,7 @@ impl StorageEngine {
                         *list = new_list;
                     } else {
                         let mut new_list = VecDeque::new();
-                        let mut to_remove = (-count) as usize;
+                        let mut to_remove = count.unsigned_abs();
                         
                         for item in list.drain(..).rev() {
                             if item == element && to_remove > 0 {
